@@ -6,7 +6,7 @@ import json
 SETUP = "cd /verif/tool && PATH=/root/go/pkg/mod/golang.org/toolchain@v0.0.1-go1.25.5.linux-amd64/bin:$PATH GOTOOLCHAIN=local GOFLAGS=-mod=mod GOPROXY=off GOSUMDB=off go build -o /verif/bin/kv ./cmd/kv"
 
 INJ_NOTE = ("trusted: go/ssa, the symbolic interpreter (fork of x/tools go/ssa/interp), the channel/errgroup/context stubs of DESIGN §4, "
-            "z3; the program dimension is a bounded enumeration of declarations (corpus F1/F2, thorough: +F4), every schedule / latency / select choice "
+            "z3; the program dimension is a bounded enumeration of declarations (corpus families F1 all DAGs, F2 features, F5 second injector, F6 layered, FG several goroutines needing each other with one fallible node / context parameter per program, FW wide; thorough: + F1 n=5, F4 random, larger FG), every schedule / latency / select choice "
             "/ failure set / cancellation instant of each enumerated injector is decided by the solver; counterexamples are replayed against the real "
             "generated code (go test -race with a schedule controller) before they are reported")
 INJ_TECH = "symbolic execution of each generated injector's go/ssa into a partial-order SMT encoding (clock per event); z3 decides every schedule/fault/cancel instant; bounded enumeration of declarations"
@@ -19,14 +19,14 @@ CHECKS = {
  "C06": ("model_checking", "with every subset of fallible providers failing and the caller never cancelling: nil-error returns, returned errors not produced by an invoked provider, invocation of dependents of a failed provider and non-termination are UNSAT for all interleavings and select choices; one genuine defect (K1) is a listed known finding", INJ_NOTE, INJ_TECH, "§5 C06"),
  "C07": ("model_checking", "with the caller cancelling at a free instant (including before the call): stuck states and nil-error returns of a value different from the reference term are UNSAT for all interleavings; two genuine defects of no-error injectors (K2a hang, K2b zero value) are listed known findings", INJ_NOTE, INJ_TECH, "§5 C07"),
  "C08": ("model_checking", "after the injector's return, in a final state where the caller acts no more, no spawned goroutine stands before a disabled blocking event — for all failure sets, cancellation instants and interleavings; one genuine defect (K3) is a listed known finding", INJ_NOTE, INJ_TECH, "§5 C08"),
- "C12": ("other", "bounded symbolic execution of the real VarPool code (go/ssa) over all operation histories up to the stated length with symbolic names; every freshness obligation is an SMT query that must be unsat; the defect it found was fixed (fix: 70d0e03)",
+ "C12": ("other", "bounded symbolic execution of the real VarPool code (go/ssa) over all operation histories up to the stated length with symbolic names; every freshness obligation is an SMT query that must be unsat; the defect it found was fixed (fix: 70d0e03); naming gate through the CLI over the adversarial-name family FN and the transitive-package family FT (generator-introduced import names included in the hygiene check)",
          "trusted: go/ssa, the interpreter fork, fmt.Sprintf stub (str.++/itoa), map-as-update-log model, SMT solvers (portfolio z3 4.8.12 / z3 5.1.0 / cvc5 1.0, first definite answer); names restricted to ASCII identifiers within the length bound",
          "symbolic execution of go/ssa + SMT strings — solver verdict over all names within bounds", "§5 C12"),
 }
 
 KNOTE = "trusted: go/ssa, the interpreter fork, the filesystem stubs of DESIGN §4 (each os call fails without effect or has its POSIX effect; Rename atomic; crash = nothing further applied), embed.FS read from the working tree; C15 counterexamples are replayed natively (install.go compiled with its os calls routed through a fault-injection shim; the installer process is killed at the crash step / the step fails) and the stubs are validated against the real OS on a sample of model paths; C16 counterexamples carry the operation trace of the model"
-CHECKS["C15"] = ("other", "symbolic execution of the real Install/InstallFile (go/ssa incl. deferred cleanup) with crash position and failing step as symbolic integers decided by z3: every crash point between/inside the filesystem steps and every single injected fault over the whole embedded tree is covered path-completely; per path the model filesystem must show every destination untouched or complete with mode 0644, failures reported, no temp file left, fault-free run complete", KNOTE, "symbolic execution of go/ssa with a nondeterministic filesystem stub; crash/fault positions are solver-decided symbolic integers", "§5 C15")
-CHECKS["C16"] = ("other", "symbolic execution of the real Install/ResolvePath/ValidatePath and agent methods for all 9 agents with --path, $HOME and cwd as symbolic strings: every mutating filesystem event is proved (unsat str.prefixof query) to lie under <base>/<skill name> with base taken from the README table parsed at check time; installed tree = on-disk skill tree; registry = kong sub-commands = README list", KNOTE, "symbolic execution of go/ssa with symbolic path strings; SMT string prefix/equality queries (portfolio)", "§5 C16")
+CHECKS["C15"] = ("other", "symbolic execution of the real Install/InstallFile (go/ssa incl. deferred cleanup) with crash position and failing step as symbolic integers decided by z3: every crash point between/inside the filesystem steps and every single injected fault over the whole embedded tree is covered path-completely; per path the model filesystem must show every destination untouched or complete with mode 0644, failures reported, no temp file left, fault-free run complete; base states: destination absent, directory present, previous installation present (older content): on an error return a previously installed file must still be there (previous or new content), evaluated on the effective filesystem (written, removed, prior)", KNOTE, "symbolic execution of go/ssa with a nondeterministic filesystem stub; crash/fault positions are solver-decided symbolic integers", "§5 C15")
+CHECKS["C16"] = ("other", "symbolic execution of the real Install/ResolvePath/ValidatePath and agent methods for all 9 agents with --path, $HOME and cwd as symbolic strings: every mutating filesystem event is proved (unsat str.prefixof query) to lie under <base>/<skill name> with base taken from the README table parsed at check time; installed tree = on-disk skill tree; registry = kong sub-commands = README list; the process umask is an environment parameter of the filesystem model ({022,027,077} wherever a file is created with an explicit permission); every (agent, --user, --path kind, base state) case is also pushed through the CLI built from the working tree on concrete HOME/cwd/--path (and under umask 077) and judged by the same README-derived expectation", KNOTE, "symbolic execution of go/ssa with symbolic path strings; SMT string prefix/equality queries (portfolio)", "§5 C16")
 
 CHECKS["C09"] = ("other", "path-complete bounded execution of the real detectCycles (every edge relation over n nodes, diagnostics must be a closed walk naming its types), the real NewGraph (every small declaration over type tokens against a reference for duplicate / orphan Struct / reachable cycle) and the real Processor.ProcessFiles with ParseFile/CreateInjector/os.Create/Generate failing at every position (refusal => no output created, non-nil error; main => exit 1); plus CLI gates: planted-invalid declarations refused with the stale output file untouched, valid corpus declarations accepted with one function each",
   "trusted: go/ssa, the interpreter fork, stubs for the parser/generator/os.Create under processFile; refusals arising inside the parser (Bind, field extraction, Set flattening) are reached only by the CLI gates (go/types and packages.Load are not executable in the interpreter); bounds: graphs <= 4 nodes, <= 3 providers over <= 3 type tokens, 2 files",
@@ -36,14 +36,14 @@ CHECKS["C10"] = ("other", "path-complete bounded execution of the real NewGraph 
   "trusted: go/ssa, the interpreter fork (go/types itself is interpreted; sync/atomic and sync.Mutex inside it stubbed as sequential); bounds: <= 3 providers, <= 2 unsupplied argument types + context.Context; larger declarations only through the corpus gate",
   "symbolic interpreter over go/ssa: path-complete bounded execution (the quantifier is program structure; forks on nondeterministic inputs, no solver work) + corpus signature gate", "§5 C10")
 
-CHECKS["C04"] = ("other", "(B) path-complete bounded execution of the real createASTTypeExpr on every type of constructor depth <= 1 (thorough: 2) built with the real go/types constructors, compared with a reference spelling; (A)/(C) gates: generated packages of the feature, naming, hard-coded-identifier, multi-file and second-injector families must type-check and no generated local may shadow a package-level, predeclared or imported name. Four genuine defects found this way were fixed (86df868, 7aaefdb, a97fa84, c1c77a1). 'Compiles' as a universal statement is outside the claim.",
+CHECKS["C04"] = ("other", "(B) path-complete bounded execution of the real createASTTypeExpr on every type of constructor depth <= 1 (thorough: 2) built with the real go/types constructors, compared with a reference spelling; (A)/(C) gates: generated packages of the feature, naming, hard-coded-identifier, multi-file and second-injector families must type-check and no generated local may shadow a package-level, predeclared or imported name. Four genuine defects found this way were fixed (86df868, 7aaefdb, a97fa84, c1c77a1). 'Compiles' as a universal statement is outside the claim.; (B2) type-imports harness: for every type shape, in both orders in which the generator meets a type (imports collected first / spelled first) and with the package's own name free or already taken, the package qualifiers of the spelled type equal the names of the ReferencedImports the generator will mark used (two genuine defects found and fixed: f49e64c, c1c4a87)",
   "trusted: go/ssa, the interpreter fork (go/types interpreted), the reference renderer in the harness, go/types as compile oracle for the gates; bounds: type constructor depth, corpus families",
   "symbolic interpreter over go/ssa: path-complete bounded execution of createASTTypeExpr over enumerated type shapes + go/types compile/hygiene gates on generated corpus packages", "§5 C04")
-CHECKS["C11"] = ("other", "history dimension: the real VarPool serves one symbolic request history twice (second allocator also sees the injector name of a previous output) and must answer identically (SMT strings); map-order dimension: Generate's import block, findMaximumAntichainSize and GetUsedImports run under every map iteration order (the interpreter picks the permutation) with equal results; map-range sites listed from SSA; gates: examples regenerate byte-identically, a determinism corpus is regenerated 4x (GOMAXPROCS 1/16, previous output present, truncated previous output) byte-identically. The defect found (K9) was fixed (e648b7e).",
+CHECKS["C11"] = ("other", "history dimension: the real VarPool serves one symbolic request history twice (second allocator also sees the injector name of a previous output) and must answer identically (SMT strings); map-order dimension: Generate's import block, findMaximumAntichainSize and GetUsedImports run under every map iteration order (the interpreter picks the permutation) with equal results; map-range sites listed from SSA; gates: examples regenerate byte-identically, a determinism corpus is regenerated 4x (GOMAXPROCS 1/16, previous output present, truncated previous output) byte-identically. The defect found (K9) was fixed (e648b7e).; rerun gates: previous / truncated / longer stale output, GOMAXPROCS 1,2,5,16 (thorough 1..16) over the determinism inputs and the wide family",
   "trusted: go/ssa, the interpreter fork, format.Node stub, cvc5/z3; the parser (packages.Load) is reached only by the gates; GOMAXPROCS/process randomness only through map order (no go statement in the generator, checked on SSA) and repeated CLI runs",
   "symbolic execution of go/ssa + SMT strings (two-run equality), nondeterministic map iteration order in the interpreter, CLI rerun gates", "§5 C11")
 
-CHECKS["C14"] = ("other", "alias allocator: symbolic execution of the real TypeConverter.AddImport over every history of 3 (thorough: 4) calls with symbolic paths/names (same path => same alias, distinct paths => distinct aliases; SMT strings, native replay); import table under every map iteration order; gates through the CLI on the wire corpus: byte-identical second run, gofmt-stable, type-checks with the wire files set aside, each set declared once; invalid inputs (syntax error, type error, duplicate set name, missing constructor) exit non-zero and write nothing",
+CHECKS["C14"] = ("other", "alias allocator: symbolic execution of the real TypeConverter.AddImport over every history of 3 (thorough: 4) calls with symbolic paths/names (same path => same alias, distinct paths => distinct aliases; SMT strings, native replay); import table under every map iteration order; gates through the CLI on the wire corpus: byte-identical second run, gofmt-stable, type-checks with the wire files set aside, each set declared once; invalid inputs (syntax error, type error, duplicate set name, missing constructor) exit non-zero and write nothing; every configuration is also migrated into a path that already holds a longer stale file (result must equal the fresh-path output)",
   "trusted: go/ssa, the interpreter fork, fmt.Sprintf stub, cvc5/z3, go/types and go/format as oracles of the gates; 'imports exactly what it uses' / 'compiles' only per enumerated configuration; Migrator.MigrateFiles is executed with loader, extraction, transformation, printer and os.WriteFile stubbed at every failure position (real mergeResults and Writer.Write)",
   "symbolic execution of go/ssa + SMT strings for the alias allocator; enumeration gates through the real CLI for well-formedness", "§5 C14")
 
